@@ -264,8 +264,13 @@ def run(ctx, spec):
         k = rng.choice([1, 1, 2, 3])
         back = rng.choice([0.0, 0.0, 0.05, 0.15])
         t0 = rng.choice([10**7, 10**7 + 1000, 2826065 + 10**7, rng.randint(10**7, 4 * 10**9)]) if back else rng.choice([0, 0, 1000, 2826065, rng.randint(0, 4 * 10**9)])
+        wrap = rng.random() < 0.12
+        if wrap:
+            # the log crosses the wrap of libwayland's 32-bit microsecond clock: times drop by ~4295 s in the middle
+            t0 = 2 ** 32 - rng.choice([1, 1000, 999999, 1000001, rng.randint(1, 30 * 10 ** 6)])
+            ctx.count('streams_crossing_the_clock_wrap')
         st = streams.build(rng, cands, k=k, n_each=tuple(spec['len']), tagged=(k > 1 or rng.random() < 0.3),
-                           opts={'big_gaps': rng.choice([0.3, 0.6]), 'equal_times': 0.1, 'thresh': rng.choice([0.1, 0.3]), 'backsteps': back}, t0=t0)
+                           opts={'big_gaps': rng.choice([0.3, 0.6]) if not wrap else 0.02, 'equal_times': 0.1, 'thresh': rng.choice([0.1, 0.3]), 'backsteps': back, 'wrap': wrap}, t0=t0)
         for e in st['entries']:
             e['gt_text'] = re.sub(r'FLOAT', 'F', history.expected_text(e['rec'], e['side'], st['names'][e['ci']]))
         filt = pick_filter(rng, st)
